@@ -42,6 +42,8 @@ void CanFdErrorFrame64::read(AbstractFile & is) {
 
 void CanFdErrorFrame64::write(AbstractFile & os) {
     /* pre processing */
+    if (data.size() > 255)
+        data.resize(255); // validDataBytes cannot express more
     validDataBytes = static_cast<uint8_t>(data.size());
 
     /*
